@@ -1,6 +1,6 @@
 #!/bin/sh
 # developer tool: materialise /repo + one corpus patch under /tmp/bt_<name> (remove it when done)
 # usage: bapply.sh benign/enc_c | seeded/C01a
-n=$(basename "$1"); d=/tmp/bt_$n
+R=${VERIF_ROOT:-$(cd "$(dirname "$0")/.." && pwd)}; n=$(basename "$1"); d=/tmp/bt_$n
 rm -rf "$d"; mkdir -p "$d"; rsync -a --exclude .git /repo/ "$d"/
-(cd "$d" && patch -p1 -s --no-backup-if-mismatch -i "${VERIF_ROOT:-$(cd "$(dirname "$0")/.." && pwd)}/$1/patch.diff") && echo "$d"
+(cd "$d" && patch -p1 -s --no-backup-if-mismatch -i "$R/$1/patch.diff") && echo "$d"
